@@ -366,7 +366,17 @@ def walk_rule(chk):
                     txt = U(qmf)
                     filt = f"in {kwp}" in txt and f"{kwp}[" in txt
                     ok = len(kws) == 1 and filt
-    if ok is None:
+    exact = [n for n in ast.walk(qmf) if (isinstance(n, ast.Call) and U(n.func) == "_QMODULE_TABLE.get" and n.args and U(n.args[0]) in (f"type({modp})", f"{modp}.__class__"))
+             or (isinstance(n, ast.Subscript) and U(n.value) == "_QMODULE_TABLE" and U(n.slice) in (f"type({modp})", f"{modp}.__class__"))
+             or (isinstance(n, ast.Compare) and len(n.ops) == 1 and isinstance(n.ops[0], (ast.In, ast.NotIn)) and U(n.left) in (f"type({modp})", f"{modp}.__class__") and U(n.comparators[0]).startswith("_QMODULE_TABLE"))]
+    if ok is None and not exact and len(loops3) == 1 and isinstance(loops3[0].target, ast.Name):
+        # a scan of the table that compares the exact class instead of testing isinstance
+        cv_ = loops3[0].target.id
+        exact = [n for n in ast.walk(loops3[0]) if isinstance(n, ast.Compare) and len(n.ops) == 1 and isinstance(n.ops[0], (ast.Is, ast.Eq)) and {U(n.left), U(n.comparators[0])} in ({f"type({modp})", cv_}, {f"{modp}.__class__", cv_})]
+    if ok is None and exact:
+        chk.bad("C08.R5", f"{mi3.rel}:{exact[0].lineno}", "quantize_module", "exact-type table lookup", f"quantize_module selects the twin by the exact class of the module (`{U(exact[0])[:60]}`): an instance of a subclass of a registered class is not an entry of the table",
+                "a model holding a subclass of Linear/Conv2d/LayerNorm (a user subclass, MultiheadAttention.out_proj's NonDynamicallyQuantizableLinear): silently left in float")
+    elif ok is None:
         chk.unknown("C08.R5", f"{mi3.rel}:{qmf.lineno}", "quantize_module: dispatch over the module table not in a recognised form")
     else:
         chk.require("C08.R5", f"{mi3.rel}:{qmf.lineno}", ok, "quantize_module: first registered class the module is an instance of; accepted kwargs forwarded by name to from_module", "quantize_module", "quantize_module shape", "a registered module class is not quantized or loses its configuration")
